@@ -286,6 +286,18 @@ struct AppMsgGuard {
 };
 
 // ---------------------------------------------------------------- one optimisation
+// the downhill simplex with its vertex values readable: the stopping rule ("relative spread of the vertex values below the tolerance")
+// is checked on the values the simplex really holds when it reports that the tolerance is reached
+struct SimplexProbe : public bpp::DownhillSimplexMethod {
+  using bpp::DownhillSimplexMethod::DownhillSimplexMethod;
+  double spread() const {
+    if (y_.empty()) return -2;
+    double hi = y_[0], lo = y_[0];
+    for (double v : y_) { if (v > hi) hi = v; if (v < lo) lo = v; }
+    return 2.0 * std::abs(hi - lo) / (std::abs(hi) + std::abs(lo));
+  }
+};
+
 struct Result {
   int outcome = 0;          // 0 returned, 1 ConstraintException, 2 other bpp::Exception, 3 evaluation cap hit
   int phase = 0;            // where it raised: 0 configuration/init, 1 optimize
@@ -300,6 +312,7 @@ struct Result {
   long clockReads = 0, refused = 0, written = 0;
   double slopeUsed = 0;
   long onBound = 0;
+  double simplexSpread = -2; // DownhillSimplex only: relative spread 2|yhi-ylo|/(|yhi|+|ylo|) over ALL current vertex values when optimize() returned (-2: not a simplex run)
   long evalsSinceImprovement = 0;  // objective evaluations since the best value seen was last improved
   long evalsInLastIteration = 0;   // objective evaluations since the last init/step event (the iteration in progress)
 };
@@ -365,7 +378,7 @@ Result runOpt(const ObjCfg& oc, const OptCfg& c, const Env& e) {
       case O_BFGS: opt = std::make_shared<bpp::BfgsMultiDimensions>(f); break;
       case O_CG: opt = std::make_shared<bpp::ConjugateGradientMultiDimensions>(f); break;
       case O_POWELL: opt = std::make_shared<bpp::PowellMultiDimensions>(f); break;
-      case O_DSM: opt = std::make_shared<bpp::DownhillSimplexMethod>(f); break;
+      case O_DSM: opt = std::make_shared<SimplexProbe>(f); break;
       case O_SIMPLE: opt = std::make_shared<bpp::SimpleMultiDimensions>(f); break;
       case O_SNEWTON: opt = std::make_shared<bpp::SimpleNewtonMultiDimensions>(f); break;
       case O_BRENT: case O_BRENTIN: {
@@ -418,6 +431,7 @@ Result runOpt(const ObjCfg& oc, const OptCfg& c, const Env& e) {
       for (size_t k = 0; k < R.coords.size(); ++k) R.pt.push_back(pl.hasParameter(vname(R.coords[k])) ? pl.getParameterValue(vname(R.coords[k])) : std::numeric_limits<double>::quiet_NaN());
     }
   }
+  if (opt && c.kind == O_DSM && R.outcome == 0) if (auto* sp = dynamic_cast<SimplexProbe*>(opt.get())) R.simplexSpread = sp->spread();
   f->point(R.own);
   R.steps.swap(listener->ev); R.inits = listener->inits; R.evalsInLastIteration = f->nEval - f->iterStart; R.evalsSinceImprovement = f->nEval - f->lastImprove;
   R.nEval = f->nEval; R.outside = f->outside; R.firstOutsideSeq = f->firstOutsideSeq; R.firstOutsideCoord = f->firstOutsideCoord; R.firstOutsideVal = f->firstOutsideVal;
@@ -454,14 +468,14 @@ const char* const g_debugFile = getenv("DSIM_C10_DEBUG");
 
 // convergence constants: bound = K * (D + floor), see info().tolerances; calibrated per optimiser
 // worst ratios seen (130 000 runs before the fixes 01-09, 80 000 after them, seed 1): Bfgs 673 (137 after), ConjugateGradient 3.5, Powell 24,
-// DownhillSimplex 3119, SimpleMulti 8.4, SimpleNewtonMulti 7.7, Brent / BrentInward / GoldenSection 0.40, Newton1D 3.3e-10,
-// Meta 321 (665 when it drives the downhill simplex in full mode)
+// DownhillSimplex 3119 (555 over 800 000 runs after the stop-rank fix adfac37), SimpleMulti 8.4, SimpleNewtonMulti 7.7, Brent / BrentInward / GoldenSection 0.40, Newton1D 3.3e-10,
+// Meta 321 (665 when it drives the downhill simplex in full mode); over 8 seeds after adfac37: Meta 5086, simplex in full mode 3392
 double convK(int kind, int n) {
   switch (kind) {
     case O_BFGS: return 1e5;
     case O_CG: return 500;
     case O_POWELL: return 3000;
-    case O_DSM: return n <= 1 ? 5000 : (n <= 4 ? 1e5 : (n == 5 ? 3e5 : 3e6));     // worst per dimension (40 000 simplex-only runs, fixed tree): 14, 845, 75, 518, 2551, 23451
+    case O_DSM: return n <= 1 ? 2000 : (n == 2 ? 500 : (n <= 4 ? 2000 : (n == 5 ? 5000 : 10000)));     // worst per dimension (20 seeds x 40 000 simplex-only runs, tree with the stop-rank fix): 124, 12, 71, 110, 285, 555 (before that fix: 14, 845, 75, 518, 2551, 23451 in 40 000)
     case O_SIMPLE: case O_SNEWTON: return 1000;
     case O_BRENT: case O_BRENTIN: case O_GOLDEN: return 50;
     case O_NEWTON1: return 1e-6;
@@ -618,6 +632,13 @@ public:
     double slack = 8 * EPS * std::max(std::abs(fs), std::abs(oc.c));
     if (!(fr <= fs + slack)) vfail("invariant:descent", "invariant:descent:" + O + bc, O + ": f(reported)=" + fmtd(fr) + " > f(start)=" + fmtd(fs));
     if (fr < fs) ctx.probe("improved-on-start");
+
+    // (4a) the simplex's stopping rule means what it says: when it reports "tolerance reached" under its own stop condition, the
+    // relative spread over all its current vertex values is below the tolerance (exact: the same expression the library documents)
+    if (c.kind == O_DSM && c.stopType == 0 && R.tol && R.simplexSpread != -2) {
+      ctx.probe("simplex-stop-rule-checked");
+      if (!(R.simplexSpread < c.tol)) vfail("invariant:stop-rule", "invariant:stop-rule:" + O + bc, O + ": reports tolerance " + fmtd(c.tol) + " reached, but its vertex values still spread by " + fmtd(R.simplexSpread) + " (relative)");
+    }
 
     // (4) convergence on strictly convex quadratics, constraints inactive, no budget cut, the optimiser's own stop condition
     convergence(R, x);
@@ -810,11 +831,12 @@ public:
     i.simTime = "objective evaluations (global sequence number per optimisation); wall clock simulated through time()";
     i.faultKinds = {"budget-cut", "clock-freeze", "clock-jump", "clock-back", "stream-fail", "stream-null"};
     i.probeNames = {"convergence-checked", "environment-rerun-identical", "bracket-checked", "inward-bracket-checked", "auto-policy-with-box", "constraint-exception-under-keep-or-ignore",
-                    "non-quadratic-objective", "improved-on-start", "stream-recorded-output"};
+                    "non-quadratic-objective", "improved-on-start", "stream-recorded-output", "simplex-stop-rule-checked"};
     for (int k = 0; k < NOPT; ++k) i.probeNames.push_back(std::string("ran:") + ONAME[k]);
     i.tolerances["descent"] = "f(reported) <= f(start) + 8 ulp * max(|f(start)|, |c|); both evaluated by the harness with the objective's own formula";
     i.tolerances["consistency"] = "optimize() == getFunctionValue() == objective at getParameters(): exact (same deterministic evaluator); objective's own parameters == getParameters(): exact";
     i.tolerances["convergence"] = "max-norm distance to the minimiser <= K * (D + floor); D = sqrt(2 tol / lmin) for absolute function-change stop conditions (Bfgs, ConjugateGradient, Simple*, Newton1D, Meta), sqrt(2 tol |fmin| / lmin) for the relative ones (Powell, DownhillSimplex), tol * |xmin| + 1e-10 for Brent / golden section; floor = sqrt(128 eps max(|fmin|, 1e-300) / lmin) + 64 eps |xmin|; lmin = smallest eigenvalue (curvature along the coordinate for 1-D optimisers); K = Bfgs 1e5, ConjugateGradient 500, Powell 3000, DownhillSimplex 5000 / 1e5 / 3e5 / 3e6 for dimensions 1 / 2-4 / 5 / 6, SimpleMulti/SimpleNewtonMulti 1000, Brent/BrentInward/GoldenSection 50, Newton1D 1e-6, Meta 1e5: each >= 100 x the worst ratio of 130 000 runs of the unchanged tree";
+    i.tolerances["stop-rule"] = "DownhillSimplex: 2|yhi-ylo|/(|yhi|+|ylo|) over all vertex values held at return < tolerance whenever isToleranceReached(): exact";
     i.tolerances["bracket-ties"] = "abscissae closer than 64 eps * max|x| count as equal when naming the middle point (rounding of the inward scan)";
     i.cpuLimitFactor = 6;      // one run is up to four optimisations, each bounded by the evaluation cap (seconds of CPU under ASan)
     i.assumptions = {"a run that reaches the harness's evaluation cap while the optimiser's own counter is still below its budget is inconclusive (counted, not reported), also when it made no progress for a long time: only ONE iteration consuming more than half the cap is reported as a hang",
